@@ -7,15 +7,22 @@ outcome, final times) must equal the trace of the Coq model Sched.run on the sam
 Monitor (search oracle): during every update each pull succeeds and the source had published at or beyond the time
 actually requested from it."""
 from . import sched_common as sc
-from .sched_common import (COQ_IMPORTS, COQ_CHECK, COQ_MODEL_OBS, TRUSTED, coq_case, coq_obs, run_impl,  # noqa: F401
-                           shrink_candidates, distribution)
+from .sched_common import (TRUSTED, coq_obs, run_impl, shrink_candidates, distribution)  # noqa: F401
+
+# dense compositions are evaluated by FV.Sched (the model of the theorems) and by its generalisation FV.SchedSparse with
+# all publication periods 1; compositions with sparse publishers by FV.SchedSparse
+COQ_IMPORTS = "From FV Require Import Base Sched SchedSparse."
+COQ_CHECK = "c01_check"
+COQ_MODEL_OBS = "c01_model"
+coq_case = sc.coq_case_c01
 
 ID = "C01"
 RULE = (
     "random compositions: 2-6 components (time-stepped with fixed/alternating/irregular steps and start offsets, "
     "0-2 pull-based), acyclic dependency graphs in random listing order and delay-resolved rings with chords/tails, "
     "adapter chains of length 0-4 from {Scale, DelayFixed, DelayToPull, DelayToPush, Next/Previous/Linear/StepTime, "
-    "Avg/SumOverTime} in every ordering, optional initial pulls; non-trivial = at least 2 time components, at least one "
+    "Avg/SumOverTime} in every ordering, optional initial pulls; sources that publish only at every 2nd-5th update "
+    "(read directly, through delays, interpolation, a pull-based relay); non-trivial = at least 2 time components, at least one "
     "adapter and at least one update of a component that is not the least advanced one (an upstream component was "
     "advanced first); distinct by canonical case hash"
 )
@@ -80,6 +87,8 @@ def generate(rng, tier):
             cases.append([sc.gen_pipeline, sc.gen_relay2, sc.gen_two_relays, sc.gen_shared_equal, sc.gen_pull_ring][(i // 20) % 5](rng))
         else:
             cases.append(sc.gen_ring(rng))
+    for i in range(40 if tier == "quick" else 1000):
+        cases.append(sc.gen_sparse(rng))
     return cases
 
 
@@ -88,12 +97,16 @@ def monitor(case, obs):
     t0 = obs["t0"]
     if obs["phase"] != "run":
         return f"connect phase failed with {obs['outcome']}"
+    # newest publication of every time component (a component may publish only at every p-th update)
     times = {k: c["start"] for k, c in enumerate(comps) if c["kind"] == "T"}
+    cnt = {k: 0 for k in times}
     cur = None
     for e in obs["events"]:
         if e[0] == "U":
             if cur is not None:
-                times[cur[0]] = cur[1]
+                cnt[cur[0]] += 1
+                if cnt[cur[0]] % max(1, comps[cur[0]].get("pubevery", 1)) == 0:
+                    times[cur[0]] = cur[1]
             cur = (e[1], e[2])
         elif e[0] == "S" and comps[e[1]]["kind"] == "T" and e[2] >= comps[e[1]]["nout"]:
             pass  # a static output serves every request time
